@@ -1740,3 +1740,220 @@ def run_entry(ename: str, fn: Callable[[Any], Any], root: Any, interner: Interne
             recd["outcome"] = "raise"      # an exception handled inside the entry point
         res["records"].append(recd)
     return res
+
+
+# --------------------------------------------------------------------------
+# 9. C20: the whole graph (all name spaces) as one typed DAG, and the real
+#    analyses' answers about it
+
+@dataclass
+class FullGraph:
+    """All name spaces flattened: nodes are arrays, containers and function
+    definitions; a Call has an edge of kind "function" to its definition, a
+    definition has edges of kind "returns" to the arrays it returns.  ns[k] is
+    0 for the caller's name space and the number of the function definition
+    node for nodes of a function body."""
+    objs: list[Any] = field(default_factory=list)
+    num: dict[int, int] = field(default_factory=dict)
+    ch: list[list[int]] = field(default_factory=list)
+    ek: list[list[str]] = field(default_factory=list)
+    ns: list[int] = field(default_factory=list)
+    cls: list[int] = field(default_factory=list)
+    roots: list[int] = field(default_factory=list)
+
+    @property
+    def n(self) -> int:
+        return len(self.objs)
+
+
+def reflect_full(root: Any, interner: Interner) -> FullGraph:
+    fg = FullGraph()
+
+    def add_ns(roots: list[Any], ns: int) -> list[int]:
+        g = reflect(roots, interner)
+        local: dict[int, int] = {}
+        for i, o in enumerate(g.objs):
+            kids = list(g.ch[i])
+            kinds = list(g.ek[i])
+            fnodes = []
+            for f in g.fns[i]:
+                if id(f) not in fg.num:
+                    # reserve the definition's number after its body
+                    body_roots = add_ns(list(f.returns.values()), -id(f))
+                    fg.objs.append(f)
+                    fk = len(fg.objs)
+                    fg.num[id(f)] = fk
+                    fg.ch.append(body_roots)
+                    fg.ek.append(["returns"] * len(body_roots))
+                    fg.ns.append(ns)
+                    fg.cls.append(interner.cls(f))
+                    for j, nsv in enumerate(fg.ns):
+                        if nsv == -id(f):
+                            fg.ns[j] = fk
+                fnodes.append(fg.num[id(f)])
+            fg.objs.append(o)
+            k = len(fg.objs)
+            local[i + 1] = k
+            if ns == 0 or True:
+                fg.num.setdefault(id(o), k) if ns == 0 else None
+            fg.ch.append(fnodes + [local[c] for c in kids])
+            fg.ek.append(["function"] * len(fnodes) + kinds)
+            fg.ns.append(ns)
+            fg.cls.append(g.cls[i])
+        return [local[r] for r in g.roots]
+
+    fg.roots = add_ns([root], 0)
+    # numbers of body nodes (a body object may also occur in the caller's graph)
+    return fg
+
+
+def _tagnames(o: Any) -> list[str]:
+    try:
+        return sorted({type(t).__name__ for t in o.tags})
+    except Exception:       # noqa: BLE001
+        return []
+
+
+def export_analyses(root: Any, interner: Interner, rid: str) -> dict:
+    """The record for spec/PtGraphCheck.tla: the reflectively exported typed
+    DAG and what every graph analysis of pytato answered about it."""
+    import pytato as pt
+    import pytato.analysis as an
+    import pytato.transform as tr
+    from pytato.tags import ImplStored
+
+    from ptverif.usertags import BazTag
+    fg = reflect_full(root, interner)
+    top = [k for k in range(1, fg.n + 1) if fg.ns[k - 1] == 0]
+    numtop = {id(fg.objs[k - 1]): k for k in top}
+
+    def nums(objs: Any) -> list[int]:
+        out = []
+        for o in objs:
+            out.append(numtop.get(id(o), 0) if (is_node(o) or is_function(o)) else -1)
+        return out
+
+    def clss(objs: Any) -> list[int]:
+        return sorted(interner.cls(o) if (is_node(o) or is_function(o)) else -1 for o in objs)
+
+    def attempt(f: Callable[[], Any]) -> Any:
+        try:
+            return f()
+        except Exception as ex:      # noqa: BLE001
+            return {"raise": type(ex).__name__, "msg": str(ex)[:160]}
+
+    isarr = [isinstance(o, pt.Array) for o in fg.objs]
+    rec: dict[str, Any] = {
+        "id": rid, "n": fg.n, "ch": fg.ch, "ek": fg.ek, "ns": fg.ns, "cls": fg.cls,
+        "kind": [type(o).__name__ for o in fg.objs], "isarr": isarr,
+        "roots": fg.roots,
+        "outs": ([fg.roots[0]] if isarr[fg.roots[0] - 1] else
+                 [c for c, kd in zip(fg.ch[fg.roots[0] - 1], fg.ek[fg.roots[0] - 1])
+                  if kd == "entry"]),
+        "stored": [isarr[k] and "ImplStored" in _tagnames(o) for k, o in enumerate(fg.objs)],
+        "baz": [isarr[k] and "BazTag" in _tagnames(o) for k, o in enumerate(fg.objs)],
+    }
+    # arrays in the DERIVED shape of a node (its .shape attribute), as numbers
+    dsh = []
+    for k, o in enumerate(fg.objs):
+        if isarr[k] and fg.ns[k] == 0:
+            sh = attempt(lambda o=o: [d for d in o.shape if isinstance(d, pt.Array)])
+            dsh.append([numtop.get(id(d), 0) for d in sh] if isinstance(sh, list) else [])
+        else:
+            dsh.append([])
+    rec["dshape"] = dsh
+    res: dict[str, Any] = {}
+    # -- predecessors, node by node (top name space)
+    lp = an.ListOfDirectPredecessorsGetter()
+    lpf = an.ListOfDirectPredecessorsGetter(include_functions=True)
+    dp = an.DirectPredecessorsGetter()
+    preds, predsf, predset = [], [], []
+    for k in range(1, fg.n + 1):
+        o = fg.objs[k - 1]
+        if fg.ns[k - 1] != 0 or is_function(o):
+            preds.append([]), predsf.append([]), predset.append([])
+            continue
+        a = attempt(lambda o=o: nums(lp(o)))
+        preds.append(a if isinstance(a, list) else [-9])
+        a = attempt(lambda o=o: nums(lpf(o)))
+        predsf.append(a if isinstance(a, list) else [-9])
+        a = attempt(lambda o=o: nums(dp(o)))
+        predset.append(a if isinstance(a, list) else [-9])
+        if not isinstance(a, list):
+            res.setdefault("preds_raise", []).append([k, a["raise"]])
+    res["preds"], res["predsf"], res["predset"] = preds, predsf, predset
+    # -- users
+    lu = attempt(lambda: an.get_list_of_users(root))
+    nu = attempt(lambda: an.get_nusers(root))
+    uc = attempt(lambda: tr.get_users(root))
+
+    def st(x: Any) -> str:
+        return x["raise"] if isinstance(x, dict) and "raise" in x else "ok"
+    res["lusers_st"] = st(lu) if st(lu) != "ok" else st(nu)
+    res["users_st"] = st(uc)
+    res["lusers_status"] = res["lusers_st"]
+    res["users_status"] = res["users_st"]
+    lusers, nusers, users, users_send = [], [], [], []
+    for k in range(1, fg.n + 1):
+        o = fg.objs[k - 1]
+        ok_top = fg.ns[k - 1] == 0 and is_node(o)
+        if ok_top and res["lusers_status"] == "ok" and isarr[k - 1]:
+            lusers.append(nums(lu[o]) if o in lu else [])
+            nusers.append(int(nu[o]))
+        else:
+            lusers.append([]), nusers.append(0)
+        if ok_top and res["users_status"] == "ok":
+            us = uc.get(o, None)
+            users.append(sorted(nums([u for u in us if is_node(u)])) if us is not None else [-7])
+            users_send.append(len([u for u in (us or ()) if not is_node(u)]))
+        else:
+            users.append([]), users_send.append(0)
+    res.update(lusers=lusers, nusers=nusers, users=users, users_send=users_send)
+    # keys of the user maps that are not nodes of the graph (by identity)
+    if res["lusers_status"] == "ok":
+        res["lusers_foreign"] = sum(1 for o in lu if id(o) not in numtop and lu[o])
+    # rec_get_user_nodes for every top-level array
+    ru = []
+    for k in top:
+        o = fg.objs[k - 1]
+        if not isarr[k - 1]:
+            continue
+        a = attempt(lambda o=o: sorted(nums([u for u in tr.rec_get_user_nodes(root, o)
+                                             if is_node(u)])))
+        ru.append([k, a if isinstance(a, list) else [-9]])
+    res["recusers"] = ru
+    # -- topological order
+    def topo() -> list[int]:
+        m = tr.TopoSortMapper()
+        m(root)
+        return nums(m.topological_order)
+    res["topo"] = attempt(topo)
+    # -- counts
+    res["numnodes_dup"] = attempt(lambda: an.get_num_nodes(root, count_duplicates=True))
+    res["numnodes_nodup"] = attempt(lambda: an.get_num_nodes(root, count_duplicates=False))
+    for flag, nm in ((True, "types_dup"), (False, "types_nodup")):
+        a = attempt(lambda flag=flag: {t.__name__: c for t, c in
+                                       an.get_node_type_counts(root, flag).items()})
+        res[nm] = (sorted([k, v] for k, v in a.items()) if "raise" not in a
+                   else {"raise": a["raise"], "msg": a.get("msg", "")})
+    a = attempt(lambda: sorted([interner.cls(e), c] for e, c in
+                               an.get_node_multiplicities(root).items()))
+    res["mult"] = a
+    res["tagcount"] = attempt(lambda: an.get_num_tags_of_type(root, BazTag))
+    res["tagcount_stored"] = attempt(lambda: an.get_num_tags_of_type(root, ImplStored))
+    res["callsites"] = attempt(lambda: an.get_num_call_sites(root))
+    res["mat_out"] = attempt(lambda: clss(an.collect_materialized_nodes(root, True)))
+    res["mat_noout"] = attempt(lambda: clss(an.collect_materialized_nodes(root, False)))
+    # every answer X gets X_st = "ok" | name of the exception; raised answers become 0 / []
+    for k in ("topo", "numnodes_dup", "numnodes_nodup", "types_dup", "types_nodup", "mult",
+              "tagcount", "tagcount_stored", "callsites", "mat_out", "mat_noout"):
+        v = res[k]
+        res[k + "_st"] = st(v)
+        if st(v) != "ok":
+            res[k + "_msg"] = v.get("msg", "")
+            if st(v) == "UnsupportedArrayError":      # ... of type <class 'x.y.Kind'>
+                res[k + "_st"] += "/" + v.get("msg", "").rsplit(".", 1)[-1].strip("'>")
+            res[k] = [] if k in ("topo", "types_dup", "types_nodup", "mult", "mat_out",
+                                 "mat_noout") else 0
+    rec["res"] = res
+    return rec
